@@ -37,6 +37,7 @@ type Step struct {
 	Hop     int    `json:"hop,omitempty"`           // spawn: 1 = through a generic function, 2 = through a closure inside a method
 	Via     bool   `json:"via_helper,omitempty"`    // spawn: the go statement is executed by a short-lived helper goroutine (another parent id)
 	FailAt  int    `json:"fail_at_write,omitempty"` // failreq: the client hangs up, every Write from this one on fails
+	Gzip    bool   `json:"accept_gzip,omitempty"`   // request: carries Accept-Encoding: gzip
 	Full    bool   `json:"full_opts,omitempty"`
 }
 
@@ -122,6 +123,27 @@ func GenPlan(r *core.Rng, seed, run uint64) *Plan {
 		}
 		return p
 	}
+	if r.Chance(0.08) {
+		// "overlap" flavour: a request is held right before it captures its dump,
+		// the population grows, a second request starts, the population grows
+		// again, then both proceed: each must account for what existed when IT
+		// captured
+		for i, k := 0, r.Range(1, 4); i < k; i++ {
+			p.Steps = append(p.Steps, Step{Op: "spawn", Kind: kinds[r.Intn(7)], Creator: r.Intn(4)})
+		}
+		_, q1, _ := genQuery(r)
+		_, q2, _ := genQuery(r)
+		p.Steps = append(p.Steps, Step{Op: "startreq", Method: "GET", Query: q1, AtStack: true})
+		for i, k := 0, r.Range(3, 6); i < k; i++ {
+			p.Steps = append(p.Steps, Step{Op: "spawn", Kind: kinds[r.Intn(7)], Creator: r.Intn(4)})
+		}
+		p.Steps = append(p.Steps, Step{Op: "startreq", Method: "GET", Query: q2, Park: r.Range(1, 4)})
+		for i, k := 0, r.Range(4, 7); i < k; i++ {
+			p.Steps = append(p.Steps, Step{Op: "spawn", Kind: kinds[r.Intn(7)], Creator: r.Intn(4)})
+		}
+		p.Steps = append(p.Steps, Step{Op: "resumereq", Target: 0}, Step{Op: "resumereq", Target: 1}, Step{Op: "snapshot"})
+		return p
+	}
 	if r.Chance(0.04) {
 		// "big" flavour: a dump between 1 and 2 MiB, so that the handler's
 		// grow-and-retry capture has to reach its last doubling
@@ -203,7 +225,12 @@ func GenPlan(r *core.Rng, seed, run uint64) *Plan {
 				p.Steps = append(p.Steps, Step{Op: "failreq", Method: "GET", Query: q, FailAt: r.Range(1, 6)})
 				m, q, _ = genQuery(r)
 			}
-			p.Steps = append(p.Steps, Step{Op: "request", Method: m, Query: q})
+			if r.Chance(0.12) {
+				// fault at the request: its context is already cancelled (the client went away)
+				p.Steps = append(p.Steps, Step{Op: "cancelreq", Method: "GET", Query: q})
+				m, q, _ = genQuery(r)
+			}
+			p.Steps = append(p.Steps, Step{Op: "request", Method: m, Query: q, Gzip: r.Chance(0.25)})
 		case k < 19 && parked < 3:
 			m, q, _ := genQuery(r)
 			st := Step{Op: "startreq", Method: m, Query: q, Park: r.Range(1, 12)}
@@ -688,7 +715,9 @@ func (c *checker) checkResponse(method, query string, code int, ctype, body stri
 		n, _ := strconv.Atoi(m[1])
 		sum += n
 	}
-	if wantCount >= 0 && sum != wantCount {
+	// every goroutine that existed is accounted for; the handler may run a few
+	// of its own while it captures (an implementation is free to)
+	if wantCount >= 0 && (sum < wantCount || sum > wantCount+2) {
 		c.fail("valid-response", "%s: the page accounts for %d goroutines, the process had %d when the handler took its dump", what, sum, wantCount)
 	}
 }
